@@ -17,6 +17,7 @@ import (
 	"path/filepath"
 	"sort"
 	"sync"
+	"sync/atomic"
 	"testing"
 	"testing/synctest"
 	"time"
@@ -39,6 +40,25 @@ type vfC12Caller struct {
 	AllowLimited bool
 	NoDial       bool
 	ForceDirect  bool
+	HookK        int    // >0: at the HookK-th ctx.Value call made on behalf of this call, HookEv happens synchronously
+	HookEv       string // adddirect | addlimited | closeout
+}
+
+// vfC12HookCtx: every ctx.Value lookup the swarm makes for a call (GetNoDial, GetAllowLimitedConn,
+// GetDialPeerTimeout, ...) is an interference point between two of its steps - e.g. between NewStream's
+// connection lookup and waitForDirectConn's registration.
+type vfC12HookCtx struct {
+	context.Context
+	n    *atomic.Int32
+	k    int32
+	fire func()
+}
+
+func (h *vfC12HookCtx) Value(key any) any {
+	if h.n.Add(1) == h.k {
+		h.fire()
+	}
+	return h.Context.Value(key)
 }
 
 type vfC12ConnEv struct {
@@ -56,7 +76,8 @@ func vfC12Execute(t *testing.T, seed int64, tr *vfh.Trace) {
 		t.Fatal(err)
 	}
 	local, remote := peer.ID("vf-local-c12"), peer.ID("vf-remote-c12")
-	sw, err := NewSwarm(local, ps, eventbus.NewBus())
+	dns := &vfDNS{addr: map[string][]ma.Multiaddr{}, host: map[string][]string{"h.example": {"/ip4/1.2.3.4"}}}
+	sw, err := NewSwarm(local, ps, eventbus.NewBus(), WithMultiaddrResolver(dns))
 	if err != nil {
 		t.Fatal(err)
 	}
@@ -92,10 +113,29 @@ func vfC12Execute(t *testing.T, seed int64, tr *vfh.Trace) {
 		}
 	}
 	var all []ma.Multiaddr
+	viaDNS := rnd.Intn(3) == 0 // some addresses are published behind /dnsaddr or /dns4 names and must be resolved first
 	for _, a := range sc.Addrs {
 		r.byAddr[string(a.Addr.Bytes())] = a
-		all = append(all, a.Addr)
-		tr.Emit("addr", "a", a.Name, "relay", a.Relay, "fd", a.FD)
+		pub := a.Addr
+		how := "plain"
+		if viaDNS {
+			switch rnd.Intn(3) {
+			case 0:
+				dns.addr["vf.example"] = append(dns.addr["vf.example"], a.Addr)
+				pub, how = nil, "dnsaddr"
+			case 1:
+				if a.Name == "t1" {
+					pub, how = ma.StringCast("/dns4/h.example/tcp/4001"), "dns4"
+				}
+			}
+		}
+		if pub != nil {
+			all = append(all, pub)
+		}
+		tr.Emit("addr", "a", a.Name, "relay", a.Relay, "fd", a.FD, "how", how)
+	}
+	if len(dns.addr["vf.example"]) > 0 {
+		all = append(all, ma.StringCast("/dnsaddr/vf.example"))
 	}
 	if len(all) > 0 {
 		ps.AddAddrs(remote, all, peerstore.PermanentAddrTTL)
@@ -138,8 +178,37 @@ func vfC12Execute(t *testing.T, seed int64, tr *vfh.Trace) {
 		}
 		callers = append(callers, c)
 	}
+	if rnd.Intn(3) == 0 {
+		// "hooked": a limited connection is there first; one NewStream caller that may not use it gets an
+		// event (a direct connection appears, ...) at one of the swarm's own context look-ups for that call
+		evs = append(evs, vfC12ConnEv{At: ms(rnd.Intn(100)), Kind: "add", Name: "h0", Limited: true})
+		h := vfC12Caller{Name: "ch", Kind: "newstream", Start: ms(300 + rnd.Intn(1500)), NoDial: rnd.Intn(3) != 0,
+			HookK: 1 + rnd.Intn(5), HookEv: []string{"adddirect", "adddirect", "adddirect", "addlimited", "closeout"}[rnd.Intn(5)]}
+		if rnd.Intn(2) == 0 {
+			h.Timeout = ms(500 + rnd.Intn(3000))
+		}
+		callers = append(callers, h)
+	}
 	inboundIDs := map[string]*vfStubConn{}
+	addedAt := map[*vfStubConn]int64{}
 	var imu sync.Mutex
+	directSince := func() int64 {
+		r.mu.Lock()
+		defer r.mu.Unlock()
+		imu.Lock()
+		defer imu.Unlock()
+		since := int64(-1)
+		for stub := range r.connID {
+			if !stub.IsClosed() && !stub.Limited {
+				if at, ok := addedAt[stub]; ok && (since < 0 || at < since) {
+					since = at
+				} else if !ok {
+					since = 0 // dialled connection: time of establishment not tracked, treat as old
+				}
+			}
+		}
+		return since
+	}
 	openStubs := func() (ids []string, direct, any bool) {
 		r.mu.Lock()
 		defer r.mu.Unlock()
@@ -159,11 +228,9 @@ func vfC12Execute(t *testing.T, seed int64, tr *vfh.Trace) {
 	}
 	_ = inbound
 	var wg sync.WaitGroup
-	for _, e := range evs {
-		wg.Add(1)
-		go func(e vfC12ConnEv) {
-			defer wg.Done()
-			time.Sleep(e.At)
+	var doEv func(e vfC12ConnEv)
+	doEv = func(e vfC12ConnEv) {
+		{
 			switch e.Kind {
 			case "add", "flash":
 				stub := newVfStubConn(e.Name, local, remote, ma.StringCast("/ip4/127.0.0.1/tcp/1"), ma.StringCast("/ip4/5.6.7.8/tcp/999"), e.Limited)
@@ -177,6 +244,7 @@ func vfC12Execute(t *testing.T, seed int64, tr *vfh.Trace) {
 				r.mu.Unlock()
 				imu.Lock()
 				inboundIDs[e.Name] = stub
+				addedAt[stub] = r.now()
 				imu.Unlock()
 				tr.Emit("conn_add", "conn", e.Name, "limited", e.Limited, "t", r.now())
 				if e.Kind == "flash" {
@@ -209,6 +277,14 @@ func vfC12Execute(t *testing.T, seed int64, tr *vfh.Trace) {
 					break
 				}
 			}
+		}
+	}
+	for _, e := range evs {
+		wg.Add(1)
+		go func(e vfC12ConnEv) {
+			defer wg.Done()
+			time.Sleep(e.At)
+			doEv(e)
 		}(e)
 	}
 	for _, c := range callers {
@@ -232,6 +308,17 @@ func vfC12Execute(t *testing.T, seed int64, tr *vfh.Trace) {
 			}
 			if c.ForceDirect {
 				ctx = network.WithForceDirectDial(ctx, "verif")
+			}
+			if c.HookK > 0 {
+				hev := map[string]vfC12ConnEv{
+					"adddirect":  {Kind: "add", Name: "hd", Limited: false},
+					"addlimited": {Kind: "add", Name: "hl", Limited: true},
+					"closeout":   {Kind: "closeout"},
+				}[c.HookEv]
+				ctx = &vfC12HookCtx{Context: ctx, n: new(atomic.Int32), k: int32(c.HookK), fire: func() {
+					tr.Emit("hook", "c", c.Name, "k", c.HookK, "hev", c.HookEv, "t", r.now())
+					doEv(hev)
+				}}
 			}
 			stubOf := func(cn network.Conn) (string, bool) {
 				stub, _ := cn.(*Conn).conn.(*vfStubConn)
@@ -270,15 +357,15 @@ func vfC12Execute(t *testing.T, seed int64, tr *vfh.Trace) {
 				tr.Emit("ns_ret", "c", c.Name, "res", "stream", "conn", id, "limited", lim, "t", r.now())
 				s.Reset()
 			case errors.Is(err, network.ErrLimitedConn):
-				tr.Emit("ns_ret", "c", c.Name, "res", "limitedconn", "direct_open", direct, "any_open", any, "t", r.now())
+				tr.Emit("ns_ret", "c", c.Name, "res", "limitedconn", "direct_open", direct, "direct_since", directSince(), "any_open", any, "t", r.now())
 			case errors.Is(err, network.ErrNoConn):
-				tr.Emit("ns_ret", "c", c.Name, "res", "noconn", "direct_open", direct, "any_open", any, "t", r.now())
+				tr.Emit("ns_ret", "c", c.Name, "res", "noconn", "direct_open", direct, "direct_since", directSince(), "any_open", any, "t", r.now())
 			case ctx.Err() != nil:
-				tr.Emit("ns_ret", "c", c.Name, "res", "ctx", "dl", dl, "t", r.now())
+				tr.Emit("ns_ret", "c", c.Name, "res", "ctx", "dl", dl, "direct_open", direct, "direct_since", directSince(), "t", r.now())
 			case vfC12IsDialErr(err):
 				tr.Emit("ns_ret", "c", c.Name, "res", "dialerr", "t", r.now())
 			case errors.Is(err, context.DeadlineExceeded):
-				tr.Emit("ns_ret", "c", c.Name, "res", "waittimeout", "direct_open", direct, "any_open", any, "t", r.now())
+				tr.Emit("ns_ret", "c", c.Name, "res", "waittimeout", "direct_open", direct, "direct_since", directSince(), "any_open", any, "t", r.now())
 			default:
 				tr.Emit("ns_ret", "c", c.Name, "res", "othererr", "direct_open", direct, "any_open", any, "err", err.Error(), "t", r.now())
 			}
